@@ -151,6 +151,8 @@ impl Consist {
         };
         let _ = consist.n_res_equipped();
         consist.set_save_interval(save_interval);
+        // same as what `init` derives after a reload
+        consist.set_pwr_dyn_brake_max();
         consist
     }
 
